@@ -258,25 +258,35 @@ func lfsDecodeBatchRecords(batch *lfsRecordBatch, decompressor kgo.Decompressor)
 		}
 	}
 	numRecords := int(batch.NumRecords)
+	if numRecords < 0 || numRecords > len(rawRecords) {
+		return nil, codec, fmt.Errorf("invalid record count %d for %d bytes of records", batch.NumRecords, len(rawRecords))
+	}
 	records := make([]kmsg.Record, numRecords)
-	records = lfsReadRawRecordsInto(records, rawRecords)
+	records, rest := lfsReadRawRecordsInto(records, rawRecords)
+	if len(records) != numRecords || len(rest) != 0 {
+		// Re-encoding such a batch would silently drop the records that were
+		// not decoded; refuse it instead.
+		return nil, codec, fmt.Errorf("record batch declares %d records: %d decoded, %d bytes left over", numRecords, len(records), len(rest))
+	}
 	return records, codec, nil
 }
 
-func lfsReadRawRecordsInto(rs []kmsg.Record, in []byte) []kmsg.Record {
+// lfsReadRawRecordsInto decodes up to len(rs) length-prefixed records from in.
+// It returns the records decoded and the bytes that follow them.
+func lfsReadRawRecordsInto(rs []kmsg.Record, in []byte) ([]kmsg.Record, []byte) {
 	for i := range rs {
 		length, used := lfsVarint(in)
 		total := used + int(length)
 		if used == 0 || length < 0 || len(in) < total {
-			return rs[:i]
+			return rs[:i], in
 		}
 		if err := (&rs[i]).ReadFrom(in[:total]); err != nil {
 			rs[i] = kmsg.Record{}
-			return rs[:i]
+			return rs[:i], in
 		}
 		in = in[total:]
 	}
-	return rs
+	return rs, in
 }
 
 func lfsCompressRecords(codec kgo.CompressionCodecType, raw []byte) ([]byte, kgo.CompressionCodecType, error) {
